@@ -218,6 +218,10 @@ func genC18(r *Rng, tier string) *Plan {
 	}
 	for _, e := range ents {
 		p.Add(Op{K: "put-ent", Spec: e})
+		if r.Chance(1, 8) {
+			// a file of the user's whose name looks like a scratch copy of the artifact
+			p.Add(Op{K: "put-file", Path: e.PemPath() + Pick(r, []string{".tmp", ".bak", "~", ".new", ".part", ".swp"}), Data: "user data, not gopki's\n"})
+		}
 	}
 	flags := DefaultFlags
 	if r.Chance(1, 3) {
@@ -409,6 +413,18 @@ func laneP_C18(t *testing.T, plan *Plan, w *World, sink *Sink) {
 			}
 			if res.Exit != 0 {
 				sink.LaneViolation(plan, "laneP:sound-hierarchy-exit-nonzero", fmt.Sprintf("lane S succeeded but the binary exited %d: %s", res.Exit, res.Stdout))
+				return
+			}
+			// whatever is not the artifact of an entity is left alone, on the real disk too
+			arts := map[string]bool{}
+			for _, e := range w.Entities() {
+				arts[e.PemPath()] = true
+			}
+			for _, cp := range changedPaths(before, after) {
+				if !arts[cp] {
+					sink.LaneViolation(plan, "laneP:non-artifact-file-changed", fmt.Sprintf("%s is not an entity's artifact, yet the binary created, changed or removed it (changed: %v)", cp, changedPaths(before, after)))
+					return
+				}
 			}
 		}()
 	}
